@@ -84,6 +84,15 @@ pub fn value_pool() -> Vec<q::Value> {
         q::Value::Float(1.5),
         q::Value::Float(0.0),
         q::Value::Float(-0.0),
+        // neighbours at machine precision, tiny and huge magnitudes, infinity (NaN cannot be written in a document)
+        q::Value::Float(0.3),
+        q::Value::Float(0.30000000000000004),
+        q::Value::Float(1e-20),
+        q::Value::Float(2e-20),
+        q::Value::Float(1e-300),
+        q::Value::Float(1e300),
+        q::Value::Float(1e300 * 1.0000000000000002),
+        q::Value::Float(f64::INFINITY),
         q::Value::String("x".into()),
         q::Value::String("".into()),
         q::Value::Boolean(true),
